@@ -5,9 +5,11 @@ import (
 	"math/big"
 	"reflect"
 	"sort"
+	"time"
 
 	g "github.com/zenon-network/go-zenon/chain/genesis/mock"
 	"github.com/zenon-network/go-zenon/common/types"
+	"github.com/zenon-network/go-zenon/consensus"
 	"github.com/zenon-network/go-zenon/vm/abi"
 	"github.com/zenon-network/go-zenon/vm/constants"
 	"github.com/zenon-network/go-zenon/vm/embedded/definition"
@@ -27,6 +29,13 @@ import (
 //   state      b-1, b, b+1 for the sender's balance, the contract's balances, and - for calls that name a token - its
 //              total supply, maximal supply and the room left (max - total)
 //   type       the minimum / maximum of the argument's own type and their neighbours
+//   aligned    (j + k*2^b) * u: whole multiples of a unit u the contracts divide durations, amounts and percentages by
+//              (1, 100, the fee / percentage totals, 10^8, an hour, a day, the staking / phase units, momentums per hour / epoch,
+//              the epoch, the reward tick), whose quotient j + k*2^b falls back into the valid range j = 0, 1, 2, 12, the
+//              length of the weights table, canonical value / u when it is narrowed to b = 8, 16, 31, 32, 63, 64 bits -
+//              as far as the argument's type can hold them. An argument that is divided or narrowed BEFORE it is
+//              range-checked lets exactly these through; the 2^k+-1 neighbours above are not multiples of the unit and are
+//              refused by the alignment test long before
 //
 // Variants per value: the one argument alone; all integer arguments of the method at once (total = max supply,
 // znn = qsr funds ...). Amounts: the same family in the canonical token up to the sender's balance, and the upper end of
@@ -140,6 +149,90 @@ func arTypeFamily(t abi.Type) []*big.Int {
 		}
 	}
 	return out
+}
+
+// arUnits: the units the embedded contracts divide durations, amounts and percentages by (values of the tree under test)
+func arUnits() []*big.Int {
+	us := []int64{1, 100, int64(constants.MaximumFee), int64(constants.LiquidityZnnTotalPercentages), int64(constants.LiquidityQsrTotalPercentages),
+		constants.Decimals, constants.RewardTimeLimit, constants.SecsInDay, constants.PhaseTimeUnit, constants.StakeTimeUnitSec,
+		constants.MomentumsPerHour, constants.MomentumsPerEpoch, int64(consensus.EpochDuration / time.Second), int64(constants.RewardTickDurationInEpochs)}
+	var out []*big.Int
+	for _, u := range us {
+		if u > 0 {
+			out = append(out, big.NewInt(u))
+		}
+	}
+	return arSortUniq(out)
+}
+
+// arAlignedFamily: (j + k*2^b) * u for the units u, the valid quotients j and the widths b a quotient may be narrowed to.
+// canonical (may be nil) is the argument's value in the canonical valid call: a valid value is a whole number of the
+// method's real unit, so the units that divide it are the relevant ones and canonical / u is a valid quotient (u = 1:
+// canonical + k*2^b, the value narrowed without a division). Quick tier: the relevant units, j = 1 and canonical / u,
+// k = -1, 1, 2 at 8 bits and k = 1 at the wider widths. full: every unit, also j = 0, 2, the number of staking periods,
+// the length of the weights table, and k = -1, 1, 2 at every width.
+func arAlignedFamily(canonical *big.Int, full bool) []*big.Int {
+	var out []*big.Int
+	maxUnits := int64(12)
+	if constants.StakeTimeUnitSec > 0 {
+		maxUnits = constants.StakeTimeMaxSec / constants.StakeTimeUnitSec
+	}
+	one := big.NewInt(1)
+	for _, u := range arUnits() {
+		js := []*big.Int{one}
+		relevant := false
+		if canonical != nil && canonical.Sign() >= 0 {
+			if q, m := new(big.Int).QuoRem(canonical, u, new(big.Int)); m.Sign() == 0 {
+				relevant = true
+				if q.Sign() > 0 && (u.Cmp(one) == 0 || q.BitLen() <= 16) {
+					js = append(js, q)
+				}
+			}
+		}
+		if !full && !relevant && u.Cmp(one) != 0 {
+			continue
+		}
+		if full {
+			js = append(js, big.NewInt(0), big.NewInt(2), big.NewInt(maxUnits), big.NewInt(int64(len(constants.LiquidityStakeWeights))-1))
+		}
+		for _, j := range arSortUniq(js) {
+			for _, b := range []uint{8, 16, 31, 32, 63, 64} {
+				ks := []int64{1}
+				if full {
+					ks = []int64{-1, 1, 2}
+				} else if b == 8 {
+					ks = []int64{-1, 1, 2}
+				}
+				for _, k := range ks {
+					q := new(big.Int).Add(j, new(big.Int).Mul(big.NewInt(k), bigPow2(b)))
+					out = append(out, q.Mul(q, u))
+				}
+			}
+		}
+	}
+	return arSortUniq(out)
+}
+
+// arBigOf: the value of an integer argument (scalar of any integer type, *big.Int, first element of an integer slice), or nil
+func arBigOf(a interface{}) *big.Int {
+	if a == nil {
+		return nil
+	}
+	if b, ok := a.(*big.Int); ok {
+		return b
+	}
+	v := reflect.ValueOf(a)
+	switch v.Kind() {
+	case reflect.Int, reflect.Int8, reflect.Int16, reflect.Int32, reflect.Int64:
+		return big.NewInt(v.Int())
+	case reflect.Uint, reflect.Uint8, reflect.Uint16, reflect.Uint32, reflect.Uint64:
+		return new(big.Int).SetUint64(v.Uint())
+	case reflect.Slice:
+		if v.Len() > 0 {
+			return arBigOf(v.Index(0).Interface())
+		}
+	}
+	return nil
 }
 
 type arSweep struct {
@@ -325,6 +418,9 @@ func (sw *arSweep) withArg(to types.Address, method string, m abi.Method, idx []
 	if set == 0 {
 		return nil
 	}
+	if to == types.BridgeContract && sw.w.r.c.Args["noreprove"] == "" { // a signature over the arguments is made again for the changed arguments
+		sw.w.reprove(to, method, spec, nil)
+	}
 	return spec
 }
 
@@ -345,6 +441,11 @@ func (w *arWorld) runIntSweep(part, parts int) {
 	}
 	top := arSortUniq(append(arAround(arAround(arAround(arAround(nil, bigPow2(63)), bigPow2(64)), bigPow2(128)), bigPow2(254)),
 		arAround(arAround(nil, bigPow2(255)), constants.TokenMaxSupplyBig)...))
+	for _, b := range []uint{32, 63, 64} { // whole coins whose number wraps to 1 when it is narrowed
+		q := new(big.Int).Add(bigPow2(b), big.NewInt(1))
+		top = append(top, q.Mul(q, big.NewInt(constants.Decimals)))
+	}
+	top = arSortUniq(top)
 	mi := -1
 	for _, ca := range allContractABIs {
 		for _, method := range arMethodOrder(ca.abi) {
@@ -411,6 +512,28 @@ func (w *arWorld) runIntSweep(part, parts int) {
 							return
 						}
 					}
+					// whole multiples of the units whose quotient wraps into the valid range when it is narrowed
+					inFam := map[string]bool{}
+					for _, v := range fam {
+						inFam[v.String()] = true
+					}
+					var canon *big.Int
+					if len(base.args) == len(m.Inputs) {
+						canon = arBigOf(base.args[i])
+					}
+					for _, v := range arAlignedFamily(canon, c.Tier == "thorough") {
+						if inFam[v.String()] {
+							continue
+						}
+						spec := subst(sw.withArg(ca.addr, method, m, []int{i}, v, false))
+						if spec == nil {
+							continue
+						}
+						c.Hit("sweep-arg-aligned")
+						if !sw.send(ca.addr, method, spec, "sweep-arg-aligned") {
+							return
+						}
+					}
 				}
 				// ---- all integer arguments at once (total = max supply, znn = qsr, every slice element)
 				multi := len(intIdx) >= 2
@@ -453,9 +576,23 @@ func (w *arWorld) runIntSweep(part, parts int) {
 				limit := new(big.Int).Div(bal, big.NewInt(40))
 				fam := append([]*big.Int{}, sw.base...)
 				fam = append(fam, sw.stateFamily(ca.addr, probe)...)
+				inBase := map[string]bool{}
+				for _, v := range fam {
+					inBase[v.String()] = true
+				}
+				if probe.amount != nil && probe.amount.Sign() > 0 { // a method that takes an amount: whole multiples of the units, as above
+					fam = append(fam, arAlignedFamily(probe.amount, c.Tier == "thorough")...)
+				}
+				budget := new(big.Int).Div(bal, big.NewInt(20)) // what the aligned amounts of this method may move together, smallest first
 				for _, v := range arSortUniq(fam) {
 					if v.Sign() < 0 {
 						continue
+					}
+					if !inBase[v.String()] {
+						if v.Cmp(budget) > 0 {
+							continue
+						}
+						budget.Sub(budget, v)
 					}
 					near := probe.amount != nil && new(big.Int).Abs(new(big.Int).Sub(v, probe.amount)).Cmp(big.NewInt(1)) <= 0
 					atBal := new(big.Int).Abs(new(big.Int).Sub(v, bal)).Cmp(big.NewInt(1)) <= 0
